@@ -1,6 +1,7 @@
 package main
 
 import (
+	"strconv"
 	"bytes"
 	"crypto/sha256"
 	"encoding/hex"
@@ -19,8 +20,10 @@ import (
 // repeated runs of the real code (in one process here; across processes via the digests written with --digests).
 
 type detCase struct {
-	Fam  string `json:"fam"`
-	Src  []int  `json:"src"`
+	Fam   string `json:"fam"`
+	Shape string `json:"shape"`
+	N     int    `json:"n"`
+	Src   []int  `json:"src"`
 	Sens bool   `json:"sens"`
 	NT   bool   `json:"nt"`
 }
@@ -138,7 +141,11 @@ func replayDet(args []string) int {
 			all[i], all[j] = all[j], all[i]
 		}
 	}
+	thin := op.int("thin", 1)
+	idx := 0
 	handle := func(raw []byte) {
+		idx++
+		_ = idx
 		var c detCase
 		if err := json.Unmarshal(raw, &c); err != nil {
 			s.Skipped++
@@ -148,6 +155,9 @@ func replayDet(args []string) int {
 		var run func() (string, string)
 		switch c.Fam {
 		case "bind":
+			if h := sha256.Sum256(raw); !c.Sens && thin > 1 && int(h[0])%thin != 0 { // by content, so that every process thins alike
+				return // the order-insensitive bind cases are thinned out in the quick tier
+			}
 			var bc bindCase
 			json.Unmarshal(raw, &bc)
 			if !s.note(raw, c.Sens, raw) {
@@ -170,7 +180,13 @@ func replayDet(args []string) int {
 			}
 		default:
 			src := bytesOf(c.Src)
-			if !s.note(src, c.NT, raw) {
+			if c.Shape != "" {
+				if c.N > 70000 {
+					return
+				}
+				src = []byte(scaleSource(c.Shape, c.N))
+			}
+			if !s.note(append([]byte(c.Shape+strconv.Itoa(c.N)), src[:min(len(src), 2000)]...), c.NT, raw) {
 				return
 			}
 			run = func() (string, string) { return progOutcome(src) }
